@@ -3,22 +3,29 @@ package main
 // Flattening of immediately invoked function literals. The x/tools inliner reduces a call to the
 // callee's body only when the body is a single return (or the call is a statement); otherwise it
 // "literalises": `d, err = f(a, b)` becomes `d, err = func(...) (...) { body }(a, b)`. This file
-// turns such a literal call, when it is the whole right-hand side of an assignment, definition,
-// return or expression statement standing in a statement list, into the statements of the body:
+// turns such a literal call into the statements of the body, placed in front of the statement the
+// call occurs in:
 //
-//	var t0 R0; var t1 R1
+//	t := g(x)                         // whatever the statement evaluates before the call and is not a
+//	                                  // plain local or constant is evaluated into temporaries first, in order
+//	var r0 R0; var r1 R1
 //	{
 //		p0, p1 := P0(a), P1(b)        // parameters, bound in parallel, converted to the parameter type
-//		var r0 R0; var r1 R1          // named results
-//		body, each `return x, y` replaced by { t0, t1 = x, y; goto end }
+//		var n0 R0; var n1 R1          // named results
+//		body, each `return x, y` replaced by { r0, r1 = x, y; goto end }
 //	}
 //	end:
-//	d, err = t0, t1
+//	m[t], err = r0, r1                // the statement, the call replaced by the result temporaries
 //
-// Go's scoping makes this behaviour preserving as long as the body has no defer/recover (they would
-// bind to the caller) and no labels; those cases are left as literals. Nested function literals are
-// not entered. The result is checked by the type checker in the next load; a text that does not
-// type-check is dropped by the caller.
+// `return f(...)` as a whole is simpler: every return of the body becomes a return of the caller.
+//
+// Evaluation order is preserved because everything the statement evaluates before the call is either
+// held in a temporary, or a constant, or a local variable that nothing can change in between (its
+// address is never taken and no function literal assigns it); receivers and assignment targets must be
+// such locals. Short-circuit operands, defer/go, loop conditions and labelled statements are left
+// alone, as are bodies with defer, recover, labels or goto. Nested function literals are not entered.
+// The result is checked by the type checker in the next load; a text that does not type-check is
+// dropped by the caller.
 
 import (
 	"bytes"
@@ -32,9 +39,10 @@ import (
 )
 
 // flattenLiterals rewrites every eligible literal call in src; it returns src unchanged when there is none.
-func flattenLiterals(filename string, src []byte) []byte {
-	for n := 0; n < 40; n++ {
-		out, ok := flattenOne(filename, src, n)
+// pkgVars: the package-level variables of the package (they may change during a call).
+func flattenLiterals(filename string, src []byte, pkgVars map[string]bool) []byte {
+	for n := 0; n < 60; n++ {
+		out, ok := flattenOne(filename, src, pkgVars)
 		if !ok {
 			break
 		}
@@ -43,19 +51,462 @@ func flattenLiterals(filename string, src []byte) []byte {
 	return src
 }
 
-type iifeSite struct {
-	stmt ast.Stmt      // statement in a statement list whose whole right-hand side is the call
-	call *ast.CallExpr // the literal call
-	lit  *ast.FuncLit
+type scanRes int
+
+const (
+	scStable   scanRes = iota // constant, stable local, or built from those without effects
+	scUnstable                // has an effect or reads something a call could change: evaluate into a temporary
+	scFound                   // contains the literal call
+	scAbort                   // contains a literal call in a position that cannot be hoisted
+)
+
+type flattener struct {
+	fset       *token.FileSet
+	src        []byte
+	pkgVars    map[string]bool
+	stable     map[string]bool // obviously stable locals of the enclosing function
+	localNames map[string]bool // every name declared inside the enclosing function
+	call       *ast.CallExpr   // the literal call found
+	lit        *ast.FuncLit
+	pre        []ast.Expr // expressions evaluated before the call that need a temporary
 }
 
-func flattenOne(filename string, src []byte, serial int) ([]byte, bool) {
+func (fl *flattener) text(n ast.Node) string {
+	return string(fl.src[fl.fset.Position(n.Pos()).Offset:fl.fset.Position(n.End()).Offset])
+}
+
+// stableLocals: names declared inside fn whose address is never taken and that no function literal assigns.
+func stableLocals(fn *ast.FuncDecl) map[string]bool {
+	decl := map[string]bool{}
+	addField := func(fl *ast.FieldList) {
+		if fl == nil {
+			return
+		}
+		for _, f := range fl.List {
+			for _, n := range f.Names {
+				decl[n.Name] = true
+			}
+		}
+	}
+	addField(fn.Recv)
+	addField(fn.Type.Params)
+	addField(fn.Type.Results)
+	bad := map[string]bool{}
+	rootIdent := func(e ast.Expr) string {
+		for {
+			switch x := e.(type) {
+			case *ast.Ident:
+				return x.Name
+			case *ast.SelectorExpr:
+				e = x.X
+			case *ast.IndexExpr:
+				e = x.X
+			case *ast.StarExpr:
+				e = x.X
+			case *ast.ParenExpr:
+				e = x.X
+			default:
+				return ""
+			}
+		}
+	}
+	var walk func(n ast.Node, inLit bool)
+	walk = func(n ast.Node, inLit bool) {
+		ast.Inspect(n, func(m ast.Node) bool {
+			switch x := m.(type) {
+			case *ast.FuncLit:
+				if m != n {
+					addField(x.Type.Params)
+					addField(x.Type.Results)
+					walk(x.Body, true)
+					return false
+				}
+			case *ast.AssignStmt:
+				for _, l := range x.Lhs {
+					if x.Tok == token.DEFINE {
+						if id, ok := l.(*ast.Ident); ok {
+							decl[id.Name] = true
+						}
+					}
+					if inLit {
+						if r := rootIdent(l); r != "" {
+							bad[r] = true
+						}
+					}
+				}
+			case *ast.IncDecStmt:
+				if inLit {
+					if r := rootIdent(x.X); r != "" {
+						bad[r] = true
+					}
+				}
+			case *ast.ValueSpec:
+				for _, id := range x.Names {
+					decl[id.Name] = true
+				}
+			case *ast.RangeStmt:
+				if x.Tok == token.DEFINE {
+					if id, ok := x.Key.(*ast.Ident); ok {
+						decl[id.Name] = true
+					}
+					if id, ok := x.Value.(*ast.Ident); ok {
+						decl[id.Name] = true
+					}
+				} else if inLit {
+					for _, e := range []ast.Expr{x.Key, x.Value} {
+						if e != nil {
+							if r := rootIdent(e); r != "" {
+								bad[r] = true
+							}
+						}
+					}
+				}
+			case *ast.UnaryExpr:
+				if x.Op == token.AND {
+					if r := rootIdent(x.X); r != "" {
+						if _, isLit := ast.Unparen(x.X).(*ast.CompositeLit); !isLit {
+							bad[r] = true
+						}
+					}
+				}
+			}
+			return true
+		})
+	}
+	if fn.Body != nil {
+		walk(fn.Body, false)
+	}
+	out := map[string]bool{}
+	for n := range decl {
+		if !bad[n] && n != "_" {
+			out[n] = true
+		}
+	}
+	return out
+}
+
+func isConstIdent(n string) bool {
+	switch n {
+	case "nil", "true", "false", "iota":
+		return true
+	}
+	return false
+}
+
+// asIIFE: e is a call of a function literal that can be flattened.
+func asIIFE(e ast.Expr) (*ast.CallExpr, *ast.FuncLit) {
+	ce, ok := e.(*ast.CallExpr)
+	if !ok {
+		return nil, nil
+	}
+	lit, ok := ast.Unparen(ce.Fun).(*ast.FuncLit)
+	if !ok || !flattenable(lit, ce) {
+		return nil, nil
+	}
+	return ce, lit
+}
+
+// containsIIFE: some flattenable literal call occurs in e (outside nested literals).
+func containsIIFE(e ast.Node) bool {
+	found := false
+	ast.Inspect(e, func(n ast.Node) bool {
+		if found {
+			return false
+		}
+		if x, ok := n.(ast.Expr); ok {
+			if ce, _ := asIIFE(x); ce != nil {
+				found = true
+				return false
+			}
+		}
+		if _, ok := n.(*ast.FuncLit); ok {
+			return false
+		}
+		return true
+	})
+	return found
+}
+
+// seq scans sub-expressions that are evaluated in the given order. When one of them contains the call,
+// the unstable ones before it are recorded for temporaries; the ones after it are not looked at.
+func (fl *flattener) seq(es []ast.Expr, selfEffect bool) scanRes {
+	res := scStable
+	var unstable []ast.Expr
+	for _, e := range es {
+		if e == nil {
+			continue
+		}
+		switch fl.scan(e) {
+		case scAbort:
+			return scAbort
+		case scFound:
+			fl.pre = append(fl.pre, unstable...)
+			return scFound
+		case scUnstable:
+			unstable = append(unstable, e)
+			res = scUnstable
+		}
+	}
+	if selfEffect {
+		res = scUnstable
+	}
+	return res
+}
+
+// scan classifies e; the first literal call in evaluation order becomes fl.call.
+func (fl *flattener) scan(e ast.Expr) scanRes {
+	if fl.call == nil {
+		if ce, lit := asIIFE(e); ce != nil {
+			// the arguments become the parameter bindings of the block: nothing to do for them
+			fl.call, fl.lit = ce, lit
+			return scFound
+		}
+	}
+	switch x := e.(type) {
+	case *ast.BasicLit:
+		return scStable
+	case *ast.Ident:
+		switch {
+		case isConstIdent(x.Name) || x.Name == "_":
+			return scStable
+		case fl.isLocalName(x.Name):
+			if fl.stable[x.Name] {
+				return scStable
+			}
+			return scUnstable
+		case fl.pkgVars[x.Name]:
+			return scUnstable
+		}
+		return scStable // package-level function, type or constant, or a builtin
+	case *ast.ParenExpr:
+		return fl.scan(x.X)
+	case *ast.FuncLit:
+		return scStable // creating a closure evaluates nothing
+	case *ast.SelectorExpr:
+		// pkg.Name or value.field / value.method
+		if id, ok := x.X.(*ast.Ident); ok && !fl.isLocalName(id.Name) && !fl.pkgVars[id.Name] {
+			return scStable // qualified identifier of an imported package (or a method expression on a type)
+		}
+		r := fl.scan(x.X)
+		if r == scFound || r == scAbort {
+			return r
+		}
+		return scUnstable // a field read (possibly through a pointer)
+	case *ast.CallExpr:
+		var parts []ast.Expr
+		switch fun := ast.Unparen(x.Fun).(type) {
+		case *ast.SelectorExpr:
+			// method call or pkg.F: the receiver must be a stable local (a temporary copy of a struct receiver would be a different object)
+			if id, ok := fun.X.(*ast.Ident); ok && (fl.stable[id.Name] || (!fl.isLocalName(id.Name) && !fl.pkgVars[id.Name])) {
+				// nothing evaluated for the receiver
+			} else {
+				if containsIIFE(x) {
+					return scAbort
+				}
+				return scUnstable
+			}
+		case *ast.Ident:
+			// function, conversion or builtin; a local function value must be stable
+			if fl.isLocalName(fun.Name) && !fl.stable[fun.Name] {
+				if containsIIFE(x) {
+					return scAbort
+				}
+				return scUnstable
+			}
+		case *ast.FuncLit:
+			// a literal call that is not flattenable (or a later one)
+			if containsIIFE(x) {
+				for _, a := range x.Args {
+					if containsIIFE(a) {
+						return scAbort
+					}
+				}
+			}
+			return scUnstable
+		default:
+			// (T)(x), arr[i](x), ...: conversions to composite types are fine, anything else is rare
+			if _, isType := fun.(*ast.ArrayType); !isType {
+				if _, isType := fun.(*ast.MapType); !isType {
+					if _, isType := fun.(*ast.StarExpr); !isType {
+						if _, isType := fun.(*ast.InterfaceType); !isType {
+							if containsIIFE(x) {
+								return scAbort
+							}
+							return scUnstable
+						}
+					}
+				}
+			}
+		}
+		parts = append(parts, x.Args...)
+		return fl.seq(parts, true)
+	case *ast.CompositeLit:
+		var parts []ast.Expr
+		for _, el := range x.Elts {
+			if kv, ok := el.(*ast.KeyValueExpr); ok {
+				if _, isIdent := kv.Key.(*ast.Ident); !isIdent {
+					parts = append(parts, kv.Key) // map or array key expression (a field name is not evaluated)
+				}
+				parts = append(parts, kv.Value)
+			} else {
+				parts = append(parts, el)
+			}
+		}
+		return fl.seq(parts, false)
+	case *ast.UnaryExpr:
+		if x.Op == token.AND {
+			if _, ok := ast.Unparen(x.X).(*ast.CompositeLit); ok {
+				return fl.scan(x.X)
+			}
+			if id, ok := ast.Unparen(x.X).(*ast.Ident); ok && fl.isLocalName(id.Name) {
+				return scStable // the address of a local does not change
+			}
+			if containsIIFE(x) {
+				return scAbort
+			}
+			return scUnstable
+		}
+		return fl.seq([]ast.Expr{x.X}, x.Op == token.ARROW)
+	case *ast.BinaryExpr:
+		if x.Op == token.LAND || x.Op == token.LOR {
+			r := fl.scan(x.X)
+			if r == scFound || r == scAbort {
+				return r
+			}
+			if containsIIFE(x.Y) {
+				return scAbort // evaluated conditionally
+			}
+			return scUnstable
+		}
+		// arithmetic can panic (division, shift): ordered with the call through a temporary unless both sides are constants
+		_, lc := ast.Unparen(x.X).(*ast.BasicLit)
+		_, rc := ast.Unparen(x.Y).(*ast.BasicLit)
+		return fl.seq([]ast.Expr{x.X, x.Y}, !(lc && rc))
+	case *ast.IndexExpr:
+		return fl.seq([]ast.Expr{x.X, x.Index}, true)
+	case *ast.SliceExpr:
+		return fl.seq([]ast.Expr{x.X, x.Low, x.High, x.Max}, true)
+	case *ast.StarExpr:
+		return fl.seq([]ast.Expr{x.X}, true)
+	case *ast.TypeAssertExpr:
+		return fl.seq([]ast.Expr{x.X}, true)
+	case *ast.KeyValueExpr:
+		return fl.seq([]ast.Expr{x.Value}, false)
+	case *ast.ArrayType, *ast.MapType, *ast.StructType, *ast.InterfaceType, *ast.FuncType, *ast.ChanType:
+		return scStable
+	}
+	if containsIIFE(e) {
+		return scAbort
+	}
+	return scUnstable
+}
+
+// isLocalName: the name is declared somewhere inside the enclosing function.
+func (fl *flattener) isLocalName(n string) bool {
+	_, ok := fl.localNames[n]
+	return ok
+}
+
+// lhsOK: an assignment target that designates the same variable before and after the call.
+func (fl *flattener) lhsOK(l ast.Expr) (ok bool, operands []ast.Expr) {
+	switch x := ast.Unparen(l).(type) {
+	case *ast.Ident:
+		return true, nil
+	case *ast.IndexExpr:
+		if id, isID := ast.Unparen(x.X).(*ast.Ident); isID && fl.stable[id.Name] {
+			return true, []ast.Expr{x.Index}
+		}
+	case *ast.SelectorExpr:
+		if id, isID := ast.Unparen(x.X).(*ast.Ident); isID && fl.stable[id.Name] {
+			return true, nil
+		}
+	case *ast.StarExpr:
+		if id, isID := ast.Unparen(x.X).(*ast.Ident); isID && fl.stable[id.Name] {
+			return true, nil
+		}
+	}
+	return false, nil
+}
+
+// scanSimple scans a simple statement (assignment, definition, expression, send, var declaration, return).
+func (fl *flattener) scanSimple(s ast.Stmt) scanRes {
+	switch x := s.(type) {
+	case *ast.ExprStmt:
+		return fl.scan(x.X)
+	case *ast.SendStmt:
+		return fl.seq([]ast.Expr{x.Chan, x.Value}, true)
+	case *ast.AssignStmt:
+		if x.Tok != token.ASSIGN && x.Tok != token.DEFINE {
+			return scAbort
+		}
+		var parts []ast.Expr
+		allOK := true
+		for _, l := range x.Lhs {
+			ok, ops := fl.lhsOK(l)
+			if !ok {
+				allOK = false
+			}
+			parts = append(parts, ops...)
+		}
+		parts = append(parts, x.Rhs...)
+		r := fl.seq(parts, true)
+		if r == scFound && !allOK {
+			return scAbort
+		}
+		return r
+	case *ast.ReturnStmt:
+		return fl.seq(x.Results, true)
+	case *ast.DeclStmt:
+		if gd, ok := x.Decl.(*ast.GenDecl); ok && gd.Tok == token.VAR && len(gd.Specs) == 1 {
+			return fl.seq(gd.Specs[0].(*ast.ValueSpec).Values, true)
+		}
+	}
+	return scAbort
+}
+
+// scanStmt: the part of a statement (in a statement list) that is evaluated first, exactly once.
+func (fl *flattener) scanStmt(s ast.Stmt) scanRes {
+	switch x := s.(type) {
+	case *ast.RangeStmt:
+		return fl.scan(x.X)
+	case *ast.IfStmt:
+		if x.Init != nil {
+			return fl.scanSimple(x.Init)
+		}
+		return fl.scan(x.Cond)
+	case *ast.SwitchStmt:
+		if x.Init != nil {
+			return fl.scanSimple(x.Init)
+		}
+		if x.Tag != nil {
+			return fl.scan(x.Tag)
+		}
+		return scStable
+	case *ast.TypeSwitchStmt:
+		if x.Init != nil {
+			return fl.scanSimple(x.Init)
+		}
+		switch a := x.Assign.(type) {
+		case *ast.ExprStmt:
+			return fl.scan(a.X)
+		case *ast.AssignStmt:
+			if len(a.Rhs) == 1 {
+				return fl.scan(a.Rhs[0])
+			}
+		}
+		return scAbort
+	case *ast.ExprStmt, *ast.SendStmt, *ast.AssignStmt, *ast.ReturnStmt, *ast.DeclStmt:
+		return fl.scanSimple(s)
+	}
+	return scStable
+}
+
+func flattenOne(filename string, src []byte, pkgVars map[string]bool) ([]byte, bool) {
 	fset := token.NewFileSet()
 	f, err := parser.ParseFile(fset, filename, src, parser.ParseComments|parser.SkipObjectResolution)
 	if err != nil {
 		return nil, false
 	}
-	// names in use (to keep the invented ones fresh)
 	used := map[string]bool{}
 	ast.Inspect(f, func(n ast.Node) bool {
 		if id, ok := n.(*ast.Ident); ok {
@@ -63,115 +514,84 @@ func flattenOne(filename string, src []byte, serial int) ([]byte, bool) {
 		}
 		return true
 	})
-	var site *iifeSite
-	var visitList func(list []ast.Stmt)
-	asLit := func(e ast.Expr) (*ast.CallExpr, *ast.FuncLit) {
-		ce, ok := ast.Unparen(e).(*ast.CallExpr)
-		if !ok {
-			return nil, nil
+	var fl *flattener
+	var site ast.Stmt
+	for _, d := range f.Decls {
+		fd, ok := d.(*ast.FuncDecl)
+		if !ok || fd.Body == nil || site != nil {
+			continue
 		}
-		lit, ok := ast.Unparen(ce.Fun).(*ast.FuncLit)
-		if !ok {
-			return nil, nil
-		}
-		return ce, lit
-	}
-	// simpleRHS: the expression of a simple statement that is, as a whole, evaluated after everything else in it
-	var simpleRHS func(s ast.Stmt) ast.Expr
-	simpleRHS = func(s ast.Stmt) ast.Expr {
-		switch x := s.(type) {
-		case *ast.ExprStmt:
-			return x.X
-		case *ast.AssignStmt:
-			if len(x.Rhs) == 1 && (x.Tok == token.ASSIGN || x.Tok == token.DEFINE) {
-				// the left-hand side must not have effects of its own ordered before the call
-				for _, l := range x.Lhs {
-					if !simpleOperand(l) {
-						return nil
+		stable := stableLocals(fd)
+		locals := map[string]bool{}
+		ast.Inspect(fd, func(n ast.Node) bool {
+			switch x := n.(type) {
+			case *ast.AssignStmt:
+				if x.Tok == token.DEFINE {
+					for _, l := range x.Lhs {
+						if id, ok := l.(*ast.Ident); ok {
+							locals[id.Name] = true
+						}
 					}
 				}
-				return x.Rhs[0]
-			}
-		case *ast.ReturnStmt:
-			if len(x.Results) == 1 {
-				return x.Results[0]
-			}
-			// several operands: one literal call, the others constants
-			var e ast.Expr
-			for _, r := range x.Results {
-				if constOperand(r) {
-					continue
+			case *ast.ValueSpec:
+				for _, id := range x.Names {
+					locals[id.Name] = true
 				}
-				if e != nil {
-					return nil
+			case *ast.RangeStmt:
+				for _, e := range []ast.Expr{x.Key, x.Value} {
+					if id, ok := e.(*ast.Ident); ok && x.Tok == token.DEFINE {
+						locals[id.Name] = true
+					}
 				}
-				e = r
+			case *ast.Field:
+				for _, id := range x.Names {
+					locals[id.Name] = true
+				}
+			case *ast.TypeSwitchStmt:
+				if a, ok := x.Assign.(*ast.AssignStmt); ok {
+					if id, ok := a.Lhs[0].(*ast.Ident); ok {
+						locals[id.Name] = true
+					}
+				}
+			case *ast.LabeledStmt:
+				// a label is not a value name
 			}
-			return e
-		case *ast.DeclStmt:
-			if gd, ok := x.Decl.(*ast.GenDecl); ok && gd.Tok == token.VAR && len(gd.Specs) == 1 {
-				if vs := gd.Specs[0].(*ast.ValueSpec); len(vs.Values) == 1 {
-					return vs.Values[0]
-				}
+			return true
+		})
+		try := func(s ast.Stmt) {
+			if site != nil {
+				return
+			}
+			if _, isLabeled := s.(*ast.LabeledStmt); isLabeled {
+				return
+			}
+			c := &flattener{fset: fset, src: src, pkgVars: pkgVars, stable: stable, localNames: locals}
+			if c.scanStmt(s) == scFound && c.call != nil {
+				fl, site = c, s
 			}
 		}
-		return nil
+		ast.Inspect(fd.Body, func(n ast.Node) bool {
+			if site != nil {
+				return false
+			}
+			switch x := n.(type) {
+			case *ast.BlockStmt:
+				// (also inside function literals: a return of the flattened body becomes a jump or a return of that literal)
+				for _, s := range x.List {
+					try(s)
+				}
+			case *ast.CaseClause:
+				for _, s := range x.Body {
+					try(s)
+				}
+			case *ast.CommClause:
+				for _, s := range x.Body {
+					try(s)
+				}
+			}
+			return true
+		})
 	}
-	consider := func(s ast.Stmt) {
-		if site != nil {
-			return
-		}
-		var e ast.Expr
-		switch x := s.(type) {
-		case *ast.RangeStmt:
-			e = x.X // evaluated once, before the loop
-		case *ast.IfStmt:
-			if x.Init != nil {
-				if _, isExpr := x.Init.(*ast.ExprStmt); !isExpr {
-					e = simpleRHS(x.Init)
-				}
-			} else {
-				e = x.Cond
-			}
-		case *ast.SwitchStmt:
-			if x.Init != nil {
-				if _, isExpr := x.Init.(*ast.ExprStmt); !isExpr {
-					e = simpleRHS(x.Init)
-				}
-			} else {
-				e = x.Tag
-			}
-		default:
-			e = simpleRHS(s)
-		}
-		if e == nil {
-			return
-		}
-		ce, lit := asLit(e)
-		if lit == nil || !flattenable(lit, ce) {
-			return
-		}
-		site = &iifeSite{s, ce, lit}
-	}
-	visitList = func(list []ast.Stmt) {
-		for _, s := range list {
-			consider(s)
-		}
-	}
-	ast.Inspect(f, func(n ast.Node) bool {
-		if site != nil {
-			return false
-		}
-		switch x := n.(type) {
-		case *ast.BlockStmt:
-			visitList(x.List)
-		case *ast.CaseClause:
-			visitList(x.Body)
-		case *ast.CommClause:
-			visitList(x.Body)
-		}
-		return true
-	})
 	if site == nil {
 		return nil, false
 	}
@@ -184,30 +604,27 @@ func flattenOne(filename string, src []byte, serial int) ([]byte, bool) {
 			}
 		}
 	}
-	text := func(n ast.Node) string {
-		return string(src[fset.Position(n.Pos()).Offset:fset.Position(n.End()).Offset])
-	}
-	lit, call := site.lit, site.call
-	// flatten the signature
+	text := fl.text
+	lit, call := fl.lit, fl.call
 	type pr struct{ name, typ string }
 	var params, results []pr
-	for _, fl := range lit.Type.Params.List {
-		t := text(fl.Type)
-		if len(fl.Names) == 0 {
+	for _, fld := range lit.Type.Params.List {
+		t := text(fld.Type)
+		if len(fld.Names) == 0 {
 			params = append(params, pr{"_", t})
 		}
-		for _, n := range fl.Names {
+		for _, n := range fld.Names {
 			params = append(params, pr{n.Name, t})
 		}
 	}
 	namedResults := false
 	if lit.Type.Results != nil {
-		for _, fl := range lit.Type.Results.List {
-			t := text(fl.Type)
-			if len(fl.Names) == 0 {
+		for _, fld := range lit.Type.Results.List {
+			t := text(fld.Type)
+			if len(fld.Names) == 0 {
 				results = append(results, pr{"", t})
 			}
-			for _, n := range fl.Names {
+			for _, n := range fld.Names {
 				results = append(results, pr{n.Name, t})
 				if n.Name != "_" {
 					namedResults = true
@@ -215,16 +632,35 @@ func flattenOne(filename string, src []byte, serial int) ([]byte, bool) {
 			}
 		}
 	}
+	// is the statement `return <call>` as a whole?
+	tail := false
+	if rs, ok := site.(*ast.ReturnStmt); ok && len(rs.Results) == 1 && ast.Unparen(rs.Results[0]) == ast.Expr(call) && len(fl.pre) == 0 {
+		tail = true
+	}
 	var b bytes.Buffer
+	// 1. temporaries for what is evaluated before the call
+	sort.Slice(fl.pre, func(i, j int) bool { return fl.pre[i].Pos() < fl.pre[j].Pos() })
+	type repl struct {
+		so, eo int
+		with   string
+	}
+	var repls []repl
+	for _, e := range fl.pre {
+		t := fresh("ucfgInlTmp")
+		fmt.Fprintf(&b, "%s := %s\n", t, text(e))
+		repls = append(repls, repl{fset.Position(e.Pos()).Offset, fset.Position(e.End()).Offset, t})
+	}
+	// 2. result temporaries
 	var temps []string
-	for _, r := range results {
-		t := fresh("ucfgInlRet")
-		temps = append(temps, t)
-		fmt.Fprintf(&b, "var %s %s\n", t, r.typ)
+	if !tail {
+		for _, r := range results {
+			t := fresh("ucfgInlRet")
+			temps = append(temps, t)
+			fmt.Fprintf(&b, "var %s %s\n", t, r.typ)
+		}
 	}
 	end := fresh("ucfgInlEnd")
 	b.WriteString("{\n")
-	// parameters
 	if len(params) > 0 {
 		var ls, rs, keep []string
 		allBlank := true
@@ -254,7 +690,6 @@ func flattenOne(filename string, src []byte, serial int) ([]byte, bool) {
 			fmt.Fprintf(&b, "var %s %s\n_ = %s\n", n, r.typ, n)
 		}
 	}
-	// body with the returns replaced (from the back so that offsets stay valid)
 	bodyStart := fset.Position(lit.Body.Lbrace).Offset + 1
 	bodyEnd := fset.Position(lit.Body.Rbrace).Offset
 	body := append([]byte{}, src[bodyStart:bodyEnd]...)
@@ -276,54 +711,64 @@ func flattenOne(filename string, src []byte, serial int) ([]byte, bool) {
 	usedGoto := false
 	for _, r := range rets {
 		var rep string
-		assign := ""
-		switch {
-		case len(temps) == 0:
-		case len(r.Results) == 0:
-			assign = strings.Join(temps, ", ") + " = " + strings.Join(resNames, ", ")
-		default:
-			var es []string
-			for _, e := range r.Results {
-				es = append(es, text(e))
-			}
-			assign = strings.Join(temps, ", ") + " = " + strings.Join(es, ", ")
+		var es []string
+		for _, e := range r.Results {
+			es = append(es, text(e))
 		}
-		if ast.Stmt(r) == last {
-			rep = "{ " + assign + " }"
-		} else {
-			usedGoto = true
-			if assign != "" {
-				rep = "{ " + assign + "; goto " + end + " }"
+		if len(r.Results) == 0 {
+			es = resNames
+		}
+		switch {
+		case tail:
+			rep = "return " + strings.Join(es, ", ")
+		default:
+			assign := ""
+			if len(temps) > 0 {
+				assign = strings.Join(temps, ", ") + " = " + strings.Join(es, ", ")
+			}
+			if ast.Stmt(r) == last {
+				rep = "{ " + assign + " }"
 			} else {
-				rep = "{ goto " + end + " }"
+				usedGoto = true
+				if assign != "" {
+					rep = "{ " + assign + "; goto " + end + " }"
+				} else {
+					rep = "{ goto " + end + " }"
+				}
 			}
 		}
 		so, eo := fset.Position(r.Pos()).Offset-bodyStart, fset.Position(r.End()).Offset-bodyStart
 		body = append(append(append([]byte{}, body[:so]...), rep...), body[eo:]...)
 	}
 	b.Write(body)
-	// a body that ends without a return (only possible with named results falling off? no: with results a
-	// terminating statement is required; a panic or an endless loop leaves the temporaries unset, unreachable)
 	b.WriteString("\n}\n")
-	if usedGoto {
-		fmt.Fprintf(&b, "%s:\n", end)
-	}
-	// the original statement with the call replaced by the temporaries
-	so, eo := fset.Position(site.stmt.Pos()).Offset, fset.Position(site.stmt.End()).Offset
-	cs, ce := fset.Position(call.Pos()).Offset, fset.Position(call.End()).Offset
-	// widen to enclosing parentheses of the call, if any, is unnecessary: "(t0)" is fine
-	switch site.stmt.(type) {
-	case *ast.ExprStmt:
-		if len(temps) > 0 {
-			fmt.Fprintf(&b, "%s = %s\n", strings.Repeat("_, ", len(temps)-1)+"_", strings.Join(temps, ", "))
-		} else if usedGoto {
-			b.WriteString(";\n")
+	so, eo := fset.Position(site.Pos()).Offset, fset.Position(site.End()).Offset
+	if !tail {
+		if usedGoto {
+			fmt.Fprintf(&b, "%s:\n", end)
 		}
-	default:
-		b.Write(src[so:cs])
-		b.WriteString(strings.Join(temps, ", "))
-		b.Write(src[ce:eo])
-		b.WriteString("\n")
+		if es, ok := site.(*ast.ExprStmt); ok && ast.Unparen(es.X) == ast.Expr(call) {
+			// the call was the whole statement
+			if len(temps) > 0 {
+				fmt.Fprintf(&b, "%s = %s\n", strings.Repeat("_, ", len(temps)-1)+"_", strings.Join(temps, ", "))
+			} else if usedGoto {
+				b.WriteString(";\n")
+			}
+		} else {
+			repls = append(repls, repl{fset.Position(call.Pos()).Offset, fset.Position(call.End()).Offset, strings.Join(temps, ", ")})
+			sort.Slice(repls, func(i, j int) bool { return repls[i].so < repls[j].so })
+			pos := so
+			for _, rp := range repls {
+				if rp.so < pos {
+					return nil, false // overlapping (cannot happen: the recorded expressions are disjoint)
+				}
+				b.Write(src[pos:rp.so])
+				b.WriteString(rp.with)
+				pos = rp.eo
+			}
+			b.Write(src[pos:eo])
+			b.WriteString("\n")
+		}
 	}
 	out := append(append(append([]byte{}, src[:so]...), b.Bytes()...), src[eo:]...)
 	formatted, err := format.Source(out)
@@ -331,30 +776,6 @@ func flattenOne(filename string, src []byte, serial int) ([]byte, bool) {
 		return nil, false
 	}
 	return formatted, true
-}
-
-// constOperand: a literal or one of nil, true, false.
-func constOperand(e ast.Expr) bool {
-	switch x := ast.Unparen(e).(type) {
-	case *ast.BasicLit:
-		return true
-	case *ast.Ident:
-		return x.Name == "nil" || x.Name == "true" || x.Name == "false"
-	}
-	return false
-}
-
-// simpleOperand: an identifier, a field selection chain on an identifier or a blank.
-func simpleOperand(e ast.Expr) bool {
-	switch x := ast.Unparen(e).(type) {
-	case *ast.Ident:
-		return true
-	case *ast.SelectorExpr:
-		return simpleOperand(x.X)
-	case *ast.StarExpr:
-		return simpleOperand(x.X)
-	}
-	return false
 }
 
 // flattenable: no defer, recover, labels or goto in the body (outside nested literals), not variadic,
